@@ -79,13 +79,13 @@ Inductive mev :=
 | MMsg (m : mmsg)                (* message_received *)
 | MWake (w : nat)                (* the acquire of w returns and _receive runs to its end *)
 | MTimeout (w : nat)             (* async_timeout fires: except-branch of _receive *)
-| MCancel (w : nat).             (* the task is cancelled: CancelledError is not an Exception *)
+| MCancel (w : nat).             (* the task is cancelled: same except-branch (BaseException) *)
 
 Inductive mout :=
 | MDeliver (w : nat) (r : option N)   (* value returned; None = the placeholder ProtocolMessage() *)
 | MListen (t : N) (tag : N)           (* self.dispatch(message.type, message) *)
 | MTimeoutErr (w : nat)
-| MKeyErr (w : nat)                   (* KeyError out of `del self._outstanding[identifier]` *)
+| MKeyErr (w : nat)                   (* KeyError out of `self._outstanding[identifier].response` after a wake-up *)
 | MCancelled (w : nat).
 
 Record mst := MkM {
@@ -122,18 +122,17 @@ Definition mstep (s : mst) (e : mev) : mst * list mout :=
       | _ => (s, [])
       end
   | MTimeout w =>
+      (* `except BaseException: self._outstanding.pop(identifier, None); raise` *)
       match aget Nat.eqb w (m_wait s) with
       | Some (k, _) =>
-          match aget mkey_eqb k (m_out s) with
-          | Some _ =>
-              (MkM (adel mkey_eqb k (m_out s)) (adel Nat.eqb w (m_wait s)), [MTimeoutErr w])
-          | None => (MkM (m_out s) (adel Nat.eqb w (m_wait s)), [MKeyErr w])
-          end
+          (MkM (adel mkey_eqb k (m_out s)) (adel Nat.eqb w (m_wait s)), [MTimeoutErr w])
       | None => (s, [])
       end
   | MCancel w =>
+      (* the same except-branch: the entry (if still there) goes on cancellation too *)
       match aget Nat.eqb w (m_wait s) with
-      | Some _ => (MkM (m_out s) (adel Nat.eqb w (m_wait s)), [MCancelled w])
+      | Some (k, _) =>
+          (MkM (adel mkey_eqb k (m_out s)) (adel Nat.eqb w (m_wait s)), [MCancelled w])
       | None => (s, [])
       end
   end.
